@@ -418,7 +418,9 @@ pub fn run_check<C: Check>(chk: &C, tier: Tier) -> Outcome {
 	silence_panics();
 	let t0 = Instant::now();
 	let root = Rng::new(crate::rng::mix(seed, crate::rng::fnv(id)));
-	let n = chk.runs(tier);
+	// VERIF_RUNS_DIV: used by C20 for the definitional engines it re-runs inside the wide / f32 builds
+	let div = std::env::var("VERIF_RUNS_DIV").ok().and_then(|s| s.parse::<u64>().ok()).unwrap_or(1).max(1);
+	let n = (chk.runs(tier) / div).max(1);
 	let next = AtomicU64::new(0);
 	type Slot<Case> = (u64, Stats, Vec<Violation>, Option<Case>);
 	let results: Mutex<Vec<Slot<C::Case>>> = Mutex::new(Vec::new());
